@@ -82,12 +82,16 @@ class RowCollector:
             # refuse before any column is touched, otherwise the columns end up with different lengths
             raise Exception('Row has less values than there are columns:', len(values), len(self._columns))
         if self._array:
+            # cast the whole row first: a value that cannot be cast must not leave a part of the row behind
+            columns = []
             for n, name in enumerate(self._columns):
                 data = getattr(self,name)
                 # string columns have a fixed width that would truncate longer values
                 dtype = data.dtype.type if data.dtype.kind in 'SU' else data.dtype
                 new = np.array(values[n],dtype=dtype)
-                setattr(self,name, np.append(data,new) )
+                columns.append( np.append(data,new) )
+            for name, data in zip(self._columns, columns):
+                setattr(self,name,data)
         else:
             for n, name in enumerate(self._columns):
                 getattr(self,name).append(values[n])
